@@ -1,7 +1,7 @@
 """debug helper: replay a stored violation file (.work/v-*.json) and show the end of the trace"""
 import sys, json
 sys.path.insert(0, __file__.rsplit('/', 1)[0])
-import impl, monitors, paired, dealing
+import impl, monitors, paired, dealing, opener, runout
 d = json.load(open(sys.argv[1]))
 tail = int(sys.argv[2]) if len(sys.argv) > 2 else 12
 print(d['viol'])
